@@ -229,6 +229,10 @@ class Scenario:
         elif shape < 0.45:
             for j in range(rng.choice([1, 2, 3])):
                 (d / f'f{j}').write_bytes(content())
+            if rng.random() < 0.5:
+                # names that are not ASCII / not even valid UTF-8 (a Latin-1 byte, a lone continuation byte)
+                for raw in rng.sample([b'caf\xe9.txt', 'na\u00efve \u6f22\u5b57.bin'.encode(), b'track-\xed\xb2\x80.dat', b'x\x80y'], 2):
+                    Path(os.fsdecode(os.fsencode(str(d)) + b'/' + raw)).write_bytes(content())
             if rng.random() < 0.4:
                 (d / 'sub' / 'deep').mkdir(parents=True)
                 (d / 'sub' / 'deep' / 'g').write_bytes(content())
@@ -353,6 +357,27 @@ class Scenario:
             if got != want:
                 self.v('restore_mismatch', f'restore wrote {len(got)} file(s), the snapshot holds {len(want)}; '
                                            f'{sum(1 for p in want if got.get(p) != want[p])} missing or different, {len(set(got) - set(want))} unexpected', {'snapshot': name[:8]})
+            elif want and self.rng.random() < 0.6:
+                # repair: an earlier restore was damaged in place (same size, same timestamps): restoring again must put the bytes back
+                victims = self.rng.sample(sorted(want), min(len(want), 2))
+                for p in victims:
+                    st = os.stat(p)
+                    data = bytearray(Path(p).read_bytes())
+                    if not data:
+                        continue
+                    for i in range(0, len(data), max(1, len(data) // 7)):
+                        data[i] ^= 0x5A
+                    Path(p).write_bytes(bytes(data))
+                    os.utime(p, ns=(st.st_atime_ns, st.st_mtime_ns))
+                res2 = self.dep.run('restore', '-S', '^' + name + '$', out, user=user)
+                got2 = {}
+                for d, _, fs in os.walk(out):
+                    for f in fs:
+                        got2[os.path.join(d, f)] = Path(d, f).read_bytes()
+                if not res2.ok or got2 != want:
+                    self.v('restore_mismatch', f'restore over an earlier restore whose files were damaged in place (same size and timestamps) '
+                                               f'{"exits with status " + str(res2.rc) if not res2.ok else "leaves " + str(sum(1 for q in want if got2.get(q) != want[q])) + " file(s) with the damaged bytes"}',
+                           {'snapshot': name[:8]})
         finally:
             shutil.rmtree(out, ignore_errors=True)
 
@@ -606,6 +631,9 @@ class Scenario:
             # the command must either mask it completely or fail - never publish a damaged object
             victim = 'snapshot'
             inject = [{'fn': rng.choice(['replace', 'replace', 'tempfile']), 'k': rng.randint(0, 5), 'when': 'before', 'action': rng.choice(['EIO', 'EMFILE', 'ENOSPC'])}]
+        elif rng.random() < 0.35:
+            # ONE refused removal (EACCES / EPERM / EROFS on one object): retried by the backend, or the command fails
+            inject = [{'fn': 'unlink', 'k': rng.randint(0, 4), 'when': 'before', 'action': rng.choice(['EACCES', 'EPERM', 'EROFS'])}]
         else:
             inject = [{'fn': 'scandir', 'k': rng.randint(0, 9), 'when': 'before', 'action': rng.choice(['EACCES', 'EACCES', 'EIO', 'EMFILE'])}]
         what = f'{victim} with {inject[0]["action"]} at {inject[0]["fn"]} #{inject[0]["k"]} ({inject[0]["when"]})'
